@@ -16,14 +16,14 @@ import (
 type c18op struct{ F, T rune }
 
 type c18out struct {
-	States      int        `json:"states"`
-	Transitions int        `json:"transitions"`
-	MaxDepth    int        `json:"max_depth"`
-	Universe    int        `json:"universe"`
-	Violations  []c18viol  `json:"violations"`
-	Samples     []c18viol  `json:"samples"`
-	Replayed    int        `json:"replayed"`
-	NoopChecked int        `json:"noop_checked"`
+	States      int       `json:"states"`
+	Transitions int       `json:"transitions"`
+	MaxDepth    int       `json:"max_depth"`
+	Universe    int       `json:"universe"`
+	Violations  []c18viol `json:"violations"`
+	Samples     []c18viol `json:"samples"`
+	Replayed    int       `json:"replayed"`
+	NoopChecked int       `json:"noop_checked"`
 }
 
 type c18viol struct {
